@@ -339,6 +339,24 @@ def run_case(rep, RP, w):
         rep.case(repr(key), nontrivial=nontrivial_matrix(R))
         if w["metric"] == "supremum":
             sparse_compare(rep, RP, w, x, w["threshold"], mv, rp, R, miss, **kw)
+    elif kind == "joint":
+        # joint recurrence plot: the line statistics describe the CURRENT joint matrix, also after the plot was
+        # re-thresholded on the same object through any of its setters
+        from pyunicorn.timeseries import JointRecurrencePlot
+        x = np.array(w["x"], dtype=np.float64)
+        y = np.array(w["y"], dtype=np.float64)
+        jrp = JointRecurrencePlot(x, y, threshold=tuple(w["threshold"]), metric=("supremum", "supremum"),
+                                  silence_level=3)
+        R = jrp.recurrence_matrix()
+        g = emit("joint/", rqa_clauses(jrp, R, None, lmins=[1, 2], lags=False))
+        for _ in range(g):
+            rep.case()
+        for setter, arg in w["then"]:
+            getattr(jrp, setter)(tuple(arg))
+            R2 = jrp.recurrence_matrix()
+            emit("joint/stale-after-%s/" % setter, rqa_clauses(jrp, R2, None, lmins=[1, 2], lags=False))
+            rep.case()
+        rep.case(repr(("joint", w["x"], w["y"], w["threshold"], w["then"])), nontrivial=nontrivial_matrix(R))
     else:
         raise ValueError(kind)
     return rep.nfail == fails0
@@ -591,6 +609,22 @@ def cases(tier, seed):
                 if emb:
                     w.update(dim=2, tau=1)
                 yield w
+    # (4b) joint recurrence plots with re-thresholding histories
+    for k in range(400 if thorough else 60):
+        n = 4 + rng.randint(30)
+        x = np.round(rng.standard_normal(n) * 2) / 2
+        y = np.round(rng.standard_normal(n) * 2) / 2
+        t = [float(rng.choice([0.3, 0.6, 1.1])), float(rng.choice([0.3, 0.6, 1.1]))]
+        then = []
+        for _ in range(1 + rng.randint(2)):
+            m = rng.randint(3)
+            if m == 0:
+                then.append(["set_fixed_threshold", [float(rng.choice([0.2, 0.8, 1.6, 5.0])), float(rng.choice([0.2, 0.8, 1.6, 5.0]))]])
+            elif m == 1:
+                then.append(["set_fixed_threshold_std", [float(rng.choice([0.2, 0.5, 1.5])), float(rng.choice([0.2, 0.5, 1.5]))]])
+            else:
+                then.append(["set_fixed_recurrence_rate", [float(rng.choice([0.1, 0.4, 0.8])), float(rng.choice([0.1, 0.4, 0.8]))]])
+        yield {"kind": "joint", "x": x.tolist(), "y": y.tolist(), "threshold": t, "then": then}
     # (5) random larger
     nr = 1000 if thorough else 120
     for k in range(nr):
